@@ -1,8 +1,143 @@
-(* C08 - firmware TDMA scheduler. Statements only. (bootstrap version) *)
-From Coq Require Import ZArith List.
-From OBB Require Import Gen.FwSchedConst Model.TdmaSched.
+(* C08 - the firmware TDMA scheduler runs each item exactly in its scheduled frame. Statements only.
+   Model: Model/TdmaSched.v (tdma_sched.c, uint8/uint16/int16 arithmetic explicit, callbacks = pure functions of the item).
+   Vocabulary (Proofs/TdmaSchedSpec.v, literal 25 buckets x 8 items):
+     wf st            25 buckets, 0 <= cur < 25, every bucket <= 8 items     cbs_ok st   no stored NULL callback
+     bucket_due st d  the items due in d frames = bucket (cur + d) mod 25, in storing order
+     op_ok o          OSched N it: 0 <= N < 25, cb <> NULL;  OSet N set p3: END_SET-terminated, N + number of END_FRAMEs < 25
+     refines st m     for every d in 0..24, bucket_due st d is a permutation of the items with due-in = d of the multiset m
+   "callbacks that report success" = forall x, 0 <= rcf x (tdma_sched_execute tests rc < 0). *)
+From Coq Require Import ZArith List Permutation Sorted.
+From OBB Require Import Gen.FwSchedConst Model.TdmaSched Proofs.TdmaSchedSpec Proofs.TdmaSchedSortP Proofs.TdmaSchedP Proofs.TdmaSchedRefP Proofs.TdmaSchedHistP Proofs.TdmaSchedOriginP.
+Import ListNotations.
 Open Scope Z_scope.
 
-Theorem c08_constants : c_TDMASCHED_NUM_FRAMES = 25 /\ c_TDMASCHED_NUM_CB = 8.
-Proof. split; reflexivity. Qed.
+(* the constants and field widths compiled from the real headers are the ones the model and the theorems use *)
+Theorem c08_constants :
+  c_TDMASCHED_NUM_FRAMES = 25 /\ c_TDMASCHED_NUM_CB = 8 /\ c_NBUCKETS = 25 /\ c_NITEMS = 8 /\
+  c_CUR_BITS = 8 /\ c_NUM_ITEMS_BITS = 8 /\ c_P1_BITS = 8 /\ c_P2_BITS = 8 /\ c_P3_BITS = 16 /\ c_P3_SIGNED = 0 /\
+  c_PRIO_BITS = 16 /\ c_PRIO_SIGNED = 1.
+Proof. exact consts_ok. Qed.
 Print Assumptions c08_constants.
+
+(* no history of valid operations, from any well-formed state, with ANY callback results, indexes outside an array or calls NULL;
+   the state stays well-formed (in particular no bucket ever holds more than 8 items, cur stays below 25) *)
+Theorem c08_no_crash : forall (rcf : item -> Z) (ops : list op) (st : sched),
+  wf st -> cbs_ok st -> Forall op_ok ops ->
+  exists os st', run rcf st ops = (os, FOk st') /\ wf st' /\ cbs_ok st' /\ length os = length ops.
+Proof. exact run_ok. Qed.
+Print Assumptions c08_no_crash.
+
+(* refinement, one operation: the ring buffer implements the multiset of (frames-until-due, item):
+   schedule adds (N, item) unless 8 items are already due in N frames (-1), advance decrements every due-in modulo 25,
+   execute runs exactly the items with due-in 0 (a permutation of them, ascending priority, return value = their number)
+   and removes them, reset keeps exactly the items with due-in 0 *)
+Theorem c08_refines_step : forall (rcf : item -> Z) (st : sched) (m : list aitem) (o : op) (st' : sched) (b : obs),
+  wf st -> cbs_ok st -> (forall x, 0 <= rcf x) -> refines st m -> op_ok o ->
+  step rcf st o = Ok (st', b) ->
+  refines st' (fst (a_step m o)) /\ obs_matches b (snd (a_step m o)).
+Proof. exact step_refines. Qed.
+Print Assumptions c08_refines_step.
+
+(* refinement, all histories *)
+Theorem c08_refines : forall (rcf : item -> Z), (forall x, 0 <= rcf x) ->
+  forall (ops : list op) (st : sched) (m : list aitem),
+  wf st -> cbs_ok st -> refines st m -> Forall op_ok ops ->
+  exists os st', run rcf st ops = (os, FOk st') /\ wf st' /\ cbs_ok st' /\
+                 refines st' (snd (a_run m ops)) /\ Forall2 obs_matches os (fst (a_run m ops)).
+Proof. exact run_refines. Qed.
+Print Assumptions c08_refines.
+
+(* the empty scheduler at any ring position is a valid start and refines the empty multiset *)
+Theorem c08_init_refines : forall c, 0 <= c < 25 -> wf (init c) /\ cbs_ok (init c) /\ refines (init c) [].
+Proof. exact (fun c H => conj (proj1 (init_wf c H)) (conj (proj2 (init_wf c H)) (init_refines c H))). Qed.
+Print Assumptions c08_init_refines.
+
+(* execute: the callbacks run are a permutation of the current frame's bucket, in ascending priority, the return value is their
+   number; afterwards that frame is empty, the ring position and every other frame are unchanged *)
+Theorem c08_sorted_perm : forall (rcf : item -> Z) (st : sched),
+  wf st -> cbs_ok st -> (forall x, 0 <= rcf x) ->
+  exists st' lg, tdma_sched_execute rcf st = XOk st' lg (Z.of_nat (length lg)) /\
+    Permutation lg (bucket_due st 0) /\ StronglySorted (fun x y => i_prio x <= i_prio y) lg /\
+    bucket_due st' 0 = [] /\ s_cur st' = s_cur st /\ (forall d, 0 < d < 25 -> bucket_due st' d = bucket_due st d).
+Proof. exact sorted_perm. Qed.
+Print Assumptions c08_sorted_perm.
+
+(* the same at the level of storage slots (identity of an item = its slot): the seq[] array the C sort produces visits
+   every occupied slot 0..n-1 exactly once, in ascending priority (exec_order is what tdma_sched_execute iterates over) *)
+Theorem c08_each_slot_once : forall (b : list item), (length b <= 8)%nat ->
+  exec_order b = map (fun k => nth k b dflt) (slot_order b) /\
+  Permutation (slot_order b) (seq 0 (length b)) /\
+  (forall k, (k < length b)%nat -> count_occ Nat.eq_dec (slot_order b) k = 1%nat) /\
+  StronglySorted (fun j k => i_prio (nth j b dflt) <= i_prio (nth k b dflt)) (slot_order b).
+Proof. exact slots_once. Qed.
+Print Assumptions c08_each_slot_once.
+
+Theorem c08_executed_empty : forall (rcf : item -> Z) (st : sched),
+  wf st -> cbs_ok st -> (forall x, 0 <= rcf x) ->
+  exists st' lg r, tdma_sched_execute rcf st = XOk st' lg r /\
+    bucket_due st' 0 = [] /\ s_cur st' = s_cur st /\ (forall d, 0 < d < 25 -> bucket_due st' d = bucket_due st d).
+Proof. exact executed_empty. Qed.
+Print Assumptions c08_executed_empty.
+
+(* exactly once, on time, with its parameters: in any well-formed state s1 (any ring position, any content), an item scheduled
+   N < 25 frames ahead into a frame with room is stored in slot k = (number of items already due then); after ANY valid
+   operations [mid] that contain exactly N advances, no reset, and no execute after the N-th advance, the item still sits in slot k
+   of the now-current bucket with (cb, p1, p2, p3, prio) unchanged; the next execute runs the slots in an order that is a
+   permutation of 0..n-1 - slot k exactly once -, in ascending priority, and leaves the frame empty.
+   (executes inside [mid] happen after fewer than N advances and, by c08_sorted_perm, touch only the then-current bucket.) *)
+Theorem c08_exactly_once_on_time : forall (rcf : item -> Z) (s1 : sched) (N : Z) (it : item) (mid : list op),
+  wf s1 -> cbs_ok s1 -> (forall x, 0 <= rcf x) -> 0 <= N < 25 -> i_cb it <> 0 ->
+  (length (bucket_due s1 N) < 8)%nat ->
+  Forall op_ok mid -> advances mid = N -> ~ In OReset mid ->
+  (forall a b, mid = a ++ OExecute :: b -> advances a < N) ->
+  exists s2 os s3 s4 order,
+    tdma_schedule s1 N it = Ok (s2, 0) /\
+    run rcf s2 mid = (os, FOk s3) /\
+    nth_error (bucket_due s3 0) (length (bucket_due s1 N)) = Some it /\
+    tdma_sched_execute rcf s3 = XOk s4 (map (fun j => nth j (bucket_due s3 0) dflt) order) (Z.of_nat (length (bucket_due s3 0))) /\
+    Permutation order (seq 0 (length (bucket_due s3 0))) /\
+    count_occ Nat.eq_dec order (length (bucket_due s1 N)) = 1%nat /\
+    StronglySorted (fun x y => i_prio x <= i_prio y) (map (fun j => nth j (bucket_due s3 0) dflt) order) /\
+    bucket_due s4 0 = [].
+Proof. exact exactly_once_on_time. Qed.
+Print Assumptions c08_exactly_once_on_time.
+
+(* sets: tdma_schedule_set is tdma_schedule applied, in order, to every item of the set with p3 replaced, the items of the
+   k-th frame of the set (k = number of SCHED_END_FRAME markers before them) at offset off + k; if all fit (return value = number
+   of END_FRAME markers) the frame due in d holds its old items followed by the set's frame d - off *)
+Theorem c08_set_offsets : forall (st : sched) (off : Z) (set : list item) (p3 : Z) (plan : list (Z * item)),
+  wf st -> 0 <= off -> off + set_nframes set < 25 -> set_plan 0 set p3 = Some plan ->
+  tdma_schedule_set st off set p3 = place st off plan (set_nframes set) /\
+  forall st', tdma_schedule_set st off set p3 = Ok (st', set_nframes set) ->
+     s_cur st' = s_cur st /\
+     forall d, 0 <= d < 25 -> bucket_due st' d = bucket_due st d ++ plan_frame plan (d - off).
+Proof. exact set_offsets. Qed.
+Print Assumptions c08_set_offsets.
+
+(* capacity: a frame that already holds 8 items answers -1 and the state is IDENTICAL (nothing overwritten);
+   with room the item is appended to that frame only *)
+Theorem c08_overflow_reported : forall (st : sched) (N : Z) (it : item), wf st -> 0 <= N < 25 ->
+  ((length (bucket_due st N) >= 8)%nat -> tdma_schedule st N it = Ok (st, -1)) /\
+  ((length (bucket_due st N) < 8)%nat -> exists st', tdma_schedule st N it = Ok (st', 0) /\ s_cur st' = s_cur st /\
+      bucket_due st' N = bucket_due st N ++ [it] /\ forall d, 0 <= d < 25 -> d <> N -> bucket_due st' d = bucket_due st d).
+Proof. exact overflow_reported. Qed.
+Print Assumptions c08_overflow_reported.
+
+(* the same for sets: the result is -1 or the number of frames, and whatever it is every frame keeps its old items as a prefix *)
+Theorem c08_set_never_overwrites : forall (st : sched) (off : Z) (set : list item) (p3 : Z) (plan : list (Z * item)),
+  wf st -> 0 <= off -> off + set_nframes set < 25 -> set_plan 0 set p3 = Some plan ->
+  exists st' rc, tdma_schedule_set st off set p3 = Ok (st', rc) /\ (rc = -1 \/ rc = set_nframes set) /\ s_cur st' = s_cur st /\
+    forall d, 0 <= d < 25 -> exists extra, bucket_due st' d = bucket_due st d ++ extra.
+Proof. exact set_appends. Qed.
+Print Assumptions c08_set_never_overwrites.
+
+(* nothing else runs: starting from the empty scheduler at any ring position, after any valid history every item found d frames
+   ahead (d = 0: what the next execute runs) was stored by an earlier schedule / set operation of that history for N frames
+   ahead, and N minus the advances since is d modulo the ring depth (= exactly N advances when every frame is executed) *)
+Theorem c08_nothing_else : forall (rcf : item -> Z) (c : Z) (ops : list op),
+  0 <= c < 25 -> (forall x, 0 <= rcf x) -> Forall op_ok ops ->
+  exists os st, run rcf (init c) ops = (os, FOk st) /\
+    forall d it, 0 <= d < 25 -> In it (bucket_due st d) ->
+      exists a o b N, ops = a ++ o :: b /\ schedules o N it /\ 0 <= N < 25 /\ (N - advances b) mod 25 = d.
+Proof. exact nothing_else. Qed.
+Print Assumptions c08_nothing_else.
